@@ -37,7 +37,7 @@ class Gen:
         rng = self.rng
         env = names_env
         names = sorted(env)
-        k = rng.choice(["ap", "ap", "rm", "rmv", "get", "get", "len", "av", "scan"] + ([] if self.owned else ["dc", "at", "af"]))
+        k = rng.choice(["ap", "ap", "rm", "rmv", "get", "get", "len", "av", "scan", "aps", "gl"] + ([] if self.owned else ["dc", "at", "af"]))
         x = rng.choice(names)
         if k == "ap":
             v = rng.randint(-5, 9)
@@ -73,6 +73,16 @@ class Gen:
             y = rng.choice(cands)
             env[x] = list(env[y])
             return ("av", x, y)
+        if k == "aps":
+            # append one of the list's own elements (the argument refers into the buffer that append replaces)
+            if not env[x]:
+                return ("len", x)
+            i = rng.choice([0, -1, rng.randrange(len(env[x]))])
+            env[x] = env[x] + [env[x][i]]
+            return ("aps", x, i, env[x][-1])
+        if k == "gl":
+            # index computed from len(): the last element
+            return ("gl", x, len(env[x])) if env[x] else ("len", x)
         if k == "af":
             # re-assignment from a helper that returns another (global) list: must clone like `x = y`
             cands = [y for y in names if y != x and y in ("a", "b", "c")]
@@ -111,6 +121,10 @@ def stmt(op):
         return f"{op[1]} = {op[2]!r}"
     if k == "ap":
         return f"{op[1]}.append({op[2]})"
+    if k == "aps":
+        return f"{op[1]}.append({op[1]}[{op[2]}])"
+    if k == "gl":
+        return f"mon.write({op[1]}[len({op[1]}) - 1])"
     if k == "rm":
         return f"{op[1]}.remove({op[2]})"
     if k == "get":
@@ -139,6 +153,10 @@ def mtok(op):
         return f"at {op[1]} {csv(op[2])}"
     if k in ("ap", "rm", "get"):
         return f"{k} {op[1]} {op[2]}"
+    if k == "aps":
+        return f"get {op[1]} {op[2]};ap {op[1]} {op[3]}"
+    if k == "gl":
+        return f"len {op[1]};get {op[1]} -1"
     return f"len {op[1]}"
 
 
@@ -180,7 +198,9 @@ def gen_case(rng, owned):
             o = g.op("loop", dict(env))
             if o[0] in ("ap", "rm", "rmv", "av", "dc", "at", "af") and owned:
                 o = ("len", o[1])
-            if o[0] in ("rmv", "rm") or (o[0] == "scan" and not owned):
+            if o[0] in ("aps",) and owned:
+                o = ("len", o[1])      # (grows the list each pass: not a constant-size loop body)
+            if o[0] in ("rmv", "rm", "gl") or (o[0] == "scan" and not owned):
                 o = ("len", o[1])     # per-pass tokens are static: no data-dependent forms in a loop whose sizes drift
             loop.append(o)
     return setup, loop
@@ -214,6 +234,8 @@ def py_run(setup, loop, passes):
         elif k in ("dc", "av", "af"): env[o[1]] = env[o[2]]
         elif k == "at": env[o[1]] = list(o[2])
         elif k == "ap": env[o[1]].append(o[2])
+        elif k == "aps": env[o[1]].append(env[o[1]][o[2]])
+        elif k == "gl": out.append(env[o[1]][len(env[o[1]]) - 1])
         elif k == "rm": env[o[1]].remove(o[2])
         elif k == "get": out.append(env[o[1]][o[2]])
         else: out.append(len(env[o[1]]))
@@ -239,6 +261,10 @@ def run(ctx: Ctx) -> int:
     # pinned sound forms: re-assignment of a declared list from a variable / from a helper returning a list must clone
     cases.append(("reassign-var", [("dm", "a", [1, 2, 3]), ("dm", "b", [7, 8, 9]), ("av", "b", "a"), ("ap", "a", 4), ("rm", "a", 4), ("get", "b", 0)],
                   [("av", "b", "a"), ("ap", "a", 77), ("rm", "a", 77), ("get", "b", -1)], 3))
+    cases.append(("self-append", [("dm", "a", [4, 5, 6]), ("aps", "a", 0, 4), ("aps", "a", -1, 4), ("get", "a", 4)],
+                  [("aps", "a", 0, 4), ("rm", "a", 4), ("len", "a")], 4))
+    cases.append(("last-after-remove", [("dm", "a", [0, 5, 0, 7]), ("rm", "a", 0), ("gl", "a", 3), ("rm", "a", 5), ("gl", "a", 2), ("ap", "a", 0), ("rm", "a", 0), ("gl", "a", 2)],
+                  [("ap", "a", 0), ("rm", "a", 0), ("len", "a")], 3))
     cases.append(("reassign-call", [("dm", "a", [1, 2, 3]), ("dm", "b", [7, 8, 9]), ("af", "b", "a"), ("ap", "a", 4), ("rm", "a", 4), ("get", "b", 0)],
                   [("af", "b", "a"), ("ap", "a", 77), ("rm", "a", 77), ("get", "b", -1)], 3))
     for i in range(ctx.n(60, 700)):
